@@ -329,8 +329,8 @@ def main():
     cov = {
         'obligations': n_ob, 'discharged': n_ok,
         'bounded_obligations': nb_ob, 'bounded_discharged': nb_ok,
-        'checker_cmd': 'goto-cc --function <h> ; goto-instrument --dfcc <h> --enforce-contract <f> [--replace-call-with-contract <g>]* [--apply-loop-contracts] ; cbmc ' + ' '.join(core.CBMC_BASE) + ' --json-ui',
-        'trusted_base': P.get('trusted', []) + ['clang 14 AST + extraction rules R1-R10 (tools/extract.py)', 'cbmc 6.11.0 / goto-instrument DFCC / minisat2'],
+        'checker_cmd': 'goto-cc --function <h> ; goto-instrument --dfcc <h> --enforce-contract <f> [--replace-call-with-contract <g>]* [--apply-loop-contracts] ; cbmc ' + ' '.join(core.CBMC_BASE) + ' (text UI; --json-ui --trace only in the re-run after a failure)',
+        'trusted_base': P.get('trusted', []) + ['clang 14 AST + extraction rules R1-R15 (tools/extract.py)', 'cbmc 6.11.0 / goto-instrument DFCC / minisat2'],
         'explanation': P.get('explanation', ''),
         'groups': gsum,
         'functions_under_contract': functions,
